@@ -89,12 +89,13 @@ CLAIMED = {
          "exactly when the dictionary-of-sets model says, the views show the model's state and the XML element equals the "
          "views (refinement + coherence, by induction over operation sequences); in a heap of events whose update callbacks "
          "are bound to owner objects, the repaired copy() keeps every callback bound to its own event, so operations on one "
-         "event never change another (frame theorem); the pre-fix deepcopy is refuted. The model is tied to EDXMLEvent, "
+         "event never change another (frame theorem); a fresh copy taken at any point of any history shows exactly the content "
+         "of its original in its views and in its XML (invariant: every cached view and XML group holds each name once, kept "
+         "by all operations and by copying; refuted without it); the pre-fix deepcopy is refuted. The model is tied to EDXMLEvent, "
          "EventElement and ParsedEvent by lock-step runs of random and exhaustive short histories (with copies), comparing "
          "mapping view, getters, get_element() and == after every step with an independent Python dictionary-of-sets oracle "
          "and the final state / raise flags with the Gallina models.",
     note=TB + "lxml's element API is represented by the XML-content record; object sets and XML children are compared as sets; "
-         "that a FRESH copy shows the same content as its original is established by correspondence only (not proved); "
          "popped elements are taken from the implementation.",
     technique="Coq refinement/invariant proof over a heap model of cached views + lock-step correspondence (vm_compute)", ref='5 C07'),
  'C09': dict(
